@@ -299,13 +299,17 @@ def _cumsum_batch_rule(
 
     slice_rank = operand.ndim - 1
     axis_param = params.get("axis", 0)
-    if axis_param is None:
-        axis_norm = slice_rank - 1 if slice_rank else 0
-    else:
-        axis_int = int(axis_param)
-        axis_norm = axis_int % slice_rank if slice_rank else 0
-
     params = dict(params)
+    if axis_param is None:
+        # axis=None accumulates over the flattened example and keeps its shape.
+        batched_shape = operand.shape
+        flat = jnp.reshape(operand, (batched_shape[0], -1))
+        params["axis"] = 1
+        out = JnpCumSumPlugin._PRIM.bind(flat, **params)
+        return jnp.reshape(out, batched_shape), 0
+
+    axis_int = int(axis_param)
+    axis_norm = axis_int % slice_rank if slice_rank else 0
     params["axis"] = axis_norm + 1
     out = JnpCumSumPlugin._PRIM.bind(operand, **params)
     return out, 0
